@@ -350,7 +350,7 @@ def scan_trusted(sel):
 
 # ------------------------------------------------------------------ replay
 
-def playback(meta, prop):
+def playback(meta, prop, budget_s=900):
     """Re-run one failing harness with concrete playback and execute the
     generated unit tests natively against the real crate.
     Returns (text, reproduced: bool)."""
@@ -358,9 +358,9 @@ def playback(meta, prop):
         crate = sync_crate()
         env = {"CARGO_TARGET_DIR": os.path.join(WORK, "target")}
         cmd = ["cargo", "kani"] + KANI_FLAGS + ["-Z", "concrete-playback",
-               "--concrete-playback=print", "--harness-timeout", "1800s",
+               "--concrete-playback=print", "--harness-timeout", f"{budget_s}s",
                "--exact", "--harness", meta["full"]]
-        rc, out = common.run(cmd, cwd=crate, env=env, timeout=2400)
+        rc, out = common.run(cmd, cwd=crate, env=env, timeout=budget_s + 120)
         txt = ["$ " + " ".join(cmd), tail_relevant(out)]
         tests = re.findall(r"```\s*\n(.*?)```", out, re.S)
         tests = [t for t in tests if "concrete_playback_run" in t]
@@ -383,7 +383,7 @@ def playback(meta, prop):
         txt.append("\n".join(body[2:]))
         reproduced = False
         cmd2 = ["cargo", "kani", "playback", "-Z", "concrete-playback", "--", "kani_concrete_playback"]
-        rc2, out2 = common.run(cmd2, cwd=crate, env=env, timeout=1800)
+        rc2, out2 = common.run(cmd2, cwd=crate, env=env, timeout=900)
         txt.append("$ " + " ".join(cmd2))
         keep = [l for l in out2.splitlines()
                 if re.search(r"panicked at|^test |test result|^\s+\[C\d\d|assertion|overflow|index out|^error|signal|double free|corrupt|SIGABRT|SIGSEGV|Caused by|process didn't exit", l)]
